@@ -339,9 +339,34 @@ def unobservable_cases():
         if f is None:
             yield (name + "/no-notify", HEAD + "    QLabel { id: lb }\n    VObj { id: t; rs: lb.text }\n}\n", False)
             yield (name + "/notify", HEAD + "    QLineEdit { id: le }\n    VObj { id: t; rs: le.text }\n}\n", True)
+            # pseudo properties the documentation introduces for convenience are not Q_PROPERTYs: nothing announces a change
+            yield (name + "/action-separator", HEAD + "    QAction { id: act; checkable: true }\n    VObj { id: t; rb: act.separator }\n}\n", False)
+            yield (name + "/action-separator-via-local", HEAD + "    QAction { id: act }\n    VObj { id: t; rb: { let x = act; return x.separator; } }\n}\n", False)
+            yield (name + "/push-button-default", HEAD + "    QPushButton { id: pb }\n    VObj { id: t; rb: pb.default_ }\n}\n", False)
             continue
         for p, ok in (("n", False), ("k", True), ("i", True)):
             yield (f"{name}/{p}", HEAD + "    VObj { id: t; " + f.format(p=p) + " }\n}\n", ok)
+
+
+def no_notify_sweep():
+    """Every readable property of every widget class (and QAction) that the type information gives neither a
+    NOTIFY signal nor the CONSTANT flag, read in a binding: must not be accepted.  And dynamic members of the
+    header maps of item views: rejected, or really connected."""
+    import qtmock
+    from checks import c04
+    types = qtmock.load_types()
+    head = "import qmluic.QtWidgets\nQWidget {\n    id: root\n"
+    for cls in c04.sweep_classes() + ["QAction"]:
+        for p_ in types.get(cls, {}).get("properties", []):
+            if p_.get("read") and not p_.get("notify") and not p_.get("constant"):
+                n = p_["name"]
+                yield (f"sweep/{cls}.{n}", head + f"    {cls} {{ id: src }}\n    VObj {{ id: t; rb: src.{n} == src.{n} }}\n}}\n", False, None)
+    for view, hname in (("QTableView", "horizontalHeader"), ("QTableView", "verticalHeader"), ("QTreeView", "header")):
+        for member, expr in (("defaultSectionSize", "a.i"), ("visible", "a.b"), ("stretchLastSection", "a.b")):
+            for notation in ("dotted", "braces"):
+                b = f"{hname}.{member}: {expr}" if notation == "dotted" else f"{hname} {{ {member}: {expr} }}"
+                yield (f"header-map/{view}.{hname}.{member}/{notation}", HEAD + f"    {view} {{ id: t; {b} }}\n}}\n", None,
+                       "Changed")      # accepted => some change signal of `a` must be connected
 
 
 def shard_work(shard, nshards, payload):
@@ -359,6 +384,19 @@ def shard_work(shard, nshards, payload):
     res = run_programs(ps, f"c02-{shard}")
     for p in ps:
         judge(t, p, res[p.pid])
+    for k, (name, src, ok, must_connect) in enumerate(no_notify_sweep()):
+        if k % nshards != shard:
+            continue
+        r = vd.job({"id": name, "source": src, "modes": ["generate"]})
+        if "modes" not in r or r["modes"]["generate"].get("status") == "panic":
+            continue
+        g = r["modes"]["generate"]
+        t.inc("notify_clause_programs")
+        acc = vc.accepted(g, r.get("has_syntax_error"))
+        if acc and must_connect is None:
+            t.violation("notify-clause:accepted-a-read-without-notify-signal", {"program": name, "source": src})
+        elif acc and not re.search(r"QObject::connect\(this->ui_->a, [^\n]*%s" % must_connect, g["header"] or ""):
+            t.violation("stale:accepted-without-a-connection", {"program": name, "source": src})
     if shard == 0:
         for name, src, ok in unobservable_cases():
             r = vd.job({"id": name, "source": src, "modes": ["generate"]})
